@@ -538,8 +538,75 @@ def check_isotherm_entry(ctx):
     ctx.add('isotherm_entry_points', ev, nt)
 
 
+def check_branches(ctx):
+    """Every isotherm entry point on an isotherm whose two branches were generated by DIFFERENT parameters: the branch asked for is analysed."""
+    import pygaps
+    import pygaps.characterisation as pgc
+    from pygaps.characterisation.models_thickness import thickness_harkins_jura
+    ev = nt = 0
+    T = 77.355
+    N2 = pygaps.Adsorbate.find('N2')
+    c = ru.ads_consts(N2.backend_name, T)
+    p = numpy.linspace(0.01, 0.6, 40)
+    U = dict(pressure_mode='relative', loading_basis='molar', loading_unit='mmol', material_basis='mass', material_unit='g')
+
+    def two(n_ads, n_des):
+        return pygaps.PointIsotherm(pressure=numpy.concatenate([p, p[::-1]]), loading=numpy.concatenate([n_ads, n_des[::-1]]), material='c14b', adsorbate='N2',
+                                    temperature=T, **U)
+
+    def only(n, br):
+        pp, nn = (p, n) if br == 'ads' else (p[::-1], n[::-1])
+        return pygaps.PointIsotherm(pressure=pp, loading=nn, material='c14b', adsorbate='N2', temperature=T, branch=br, **U)
+
+    def da_n(V0, E, m):
+        return V0 * c['dl'] / c['M'] * numpy.exp(-((R * T * numpy.log(1 / p)) / (E * 1000)) ** m) * 1000
+
+    ref_n = 2.0 * 30.0 * p / (1 + 30.0 * p) + 1.5 * p
+    ref = pygaps.PointIsotherm(pressure=p, loading=ref_n, material='c14ref', adsorbate='N2', temperature=T, **U)
+    ref_area = core.call(pgc.area_BET, ref)
+    a04 = float(numpy.interp(0.4, p, ref_n))
+    cases = [
+        ('area_BET', lambda iso, br: pgc.area_BET(iso, branch=br, p_limits=(0.03, 0.31)), lambda q: bet_n(p, *q), ((2.0, 80.0), (2.6, 40.0)),
+         lambda r, q: max(rel(r['n_monolayer'], q[0] * 1e-3), rel(r['c_const'], q[1]))),
+        ('area_langmuir', lambda iso, br: pgc.area_langmuir(iso, branch=br, p_limits=(0.03, 0.55)), lambda q: q[0] * q[1] * p / (1 + q[1] * p), ((3.0, 25.0), (3.4, 12.0)),
+         lambda r, q: max(rel(r['n_monolayer'], q[0] * 1e-3), rel(r['langmuir_const'], q[1]))),
+        ('t_plot', lambda iso, br: pgc.t_plot(iso, branch=br, t_limits=(0.25, 0.7)), lambda q: q[0] * thickness_harkins_jura(p) + q[1], ((1.5, 0.3), (1.9, 0.5)),
+         lambda r, q: max(rel(r['results'][0]['slope'], q[0]), rel(r['results'][0]['intercept'], q[1])) if len(r['results']) == 1 else float('inf')),
+        ('da_plot', lambda iso, br: pgc.da_plot(iso, branch=br, exp=1.6), lambda q: da_n(q[0], q[1], 1.6), ((0.3, 6.0), (0.36, 7.5)),
+         lambda r, q: max(rel(r['pore_volume'], q[0]), rel(r['adsorption_potential'], q[1]))),
+        ('dr_plot', lambda iso, br: pgc.dr_plot(iso, branch=br), lambda q: da_n(q[0], q[1], 2.0), ((0.3, 6.0), (0.36, 7.5)),
+         lambda r, q: max(rel(r['pore_volume'], q[0]), rel(r['adsorption_potential'], q[1]))),
+        ('alpha_s', lambda iso, br: pgc.alpha_s(iso, ref, reference_area='BET', branch=br, t_limits=(0.4, 1.2)), lambda q: q[0] * ref_n + q[1], ((1.0, 0.8), (2.5, 0.3)),
+         lambda r, q: max(rel(r['results'][0]['slope'], q[0] * a04), abs(r['results'][0]['intercept'] - q[1]) / (q[0] * a04 + q[1])) if len(r['results']) == 1 else float('inf')),
+    ]
+    for mname, call, gen, (qa, qd), err in cases:
+        isos = {'both branches': two(gen(qa), gen(qd)), 'desorption only': only(gen(qd), 'des'), 'adsorption only': only(gen(qa), 'ads')}
+        for held, iso in isos.items():
+            for br in ('ads', 'des'):
+                present = held == 'both branches' or held.startswith({'ads': 'adsorption', 'des': 'desorption'}[br])
+                o = core.call(call, iso, br)
+                ev += 1
+                if not present:
+                    if o.ok:
+                        ctx.violate(core.make_violation({'check': 'branch', 'method': mname, 'what': 'absent branch analysed'},
+                                                        f'{mname}(branch={br!r}) on an isotherm holding the {held} returned a result', {'held': held, 'branch': br}))
+                    continue
+                nt += 1
+                q = qa if br == 'ads' else qd
+                e = err(o.value, q) if o.ok else float('inf')
+                if not e < 1e-5:
+                    other = err(o.value, qd if br == 'ads' else qa) if o.ok else float('inf')
+                    ctx.violate(core.make_violation(
+                        {'check': 'branch', 'method': mname, 'what': 'result of the other branch' if other < 1e-5 else 'wrong result'},
+                        f'{mname}(branch={br!r}) on an isotherm holding {held} (adsorption generated by {qa}, desorption by {qd}): '
+                        f'{o.brief() if not o.ok else "does not recover the generator of that branch (deviation %.3g)" % e}'
+                        + (' -- it recovers the generator of the OTHER branch' if other < 1e-5 else ''), {'held': held, 'branch': br}, q, None))
+    ctx.add('branches', ev, nt)
+
+
 def run(ctx):
     check_bet_auto_family(ctx)
+    check_branches(ctx)
     sc = ctx.scale
     gk = list(grids(sc))
     if ctx.quick:
